@@ -112,13 +112,18 @@ def specSrvErr (cls status : String) : Option String :=
   else if expectedErrStatus cls ≠ some status then some "mapped-4xx"
   else none
 
-/-- memory budget for one connection's worth of requests -/
-def wireBudget (reqLen : Nat) : Nat := 524288 + 256 * reqLen
+/-- memory budget for one connection's worth of requests. A request that names a content coding
+    makes `c.Body()` run a third-party decompressor (brotli / zstd / flate), whose window buffer is
+    sized by the stream header (bounded by the format, up to 16 MiB for brotli) and not by fiber:
+    such requests get that constant on top. -/
+def wireBudget (reqLen : Nat) (hasCoding : Bool) : Nat :=
+  524288 + 256 * reqLen + (if hasCoding then 33554432 else 0)
 
-def specWire (reqLen : Nat) (obs : String) (alloc : Nat) : Option String :=
+def specWire (req : Bytes) (obs : String) (alloc : Nat) : Option String :=
+  let hasCoding := (indexOf (toLower req) (b "content-encoding")).isSome
   if obs.startsWith "panic" then some "no-panic"
   else if obs.startsWith "unparsable" then some "well-formed"
-  else if alloc > wireBudget reqLen then some "alloc-proportional"
+  else if alloc > wireBudget req.length hasCoding then some "alloc-proportional"
   else none
 
 /-- parsers: the property asks for "no panic"; on top, results that are cheap to sanity-check -/
